@@ -283,6 +283,25 @@ class Machine:
             return self._rejected(before, f"f[{pos}]=CoordPayload({coord},..)", e)
         return ("ok", {"negative": pos < 0, "illegal-accepted": not (order_ok and in_range)})
 
+    def op_insert(self, o):
+        """the deprecated but public coordinate mutators: insertOrLookup (any coordinate) and insert (absent
+        coordinates only -- what insert does with a stored coordinate is not documented)"""
+        f, lvl = self.target(o["path"] + [0, 0, 0])
+        if lvl < self.d - 1:
+            return ("skipped", {})
+        c = o["sel"][0] % self.shape[lvl]
+        present = c in f.coords
+        held = f.payloads[f.coords.index(c)] if present else None
+        if o["mode"] % 2 == 0 or present:
+            got = f.insertOrLookup(c, o["val"])
+            if present and got is not held:
+                raise Violation("insertOrLookup", f"insertOrLookup({c}) of a stored coordinate did not return its payload")
+            if c not in f.coords or got is not f.payloads[f.coords.index(c)]:
+                raise Violation("insertOrLookup", f"insertOrLookup({c}) did not return the payload stored at {c}")
+        else:
+            f.insert(c, o["val"])
+        return ("ok", {"present": present})
+
     def op_fiber_arith(self, o):
         f, lvl = self.target(o["path"] + [0, 0, 0])
         if lvl < self.d - 1:
